@@ -929,3 +929,74 @@ _run_c11b = run
 def run(ctx, R):
     _run_c11b(ctx, R)
     r1112(ctx, R)
+
+
+_DICT_WRITERS = ('update', 'setdefault', 'pop', 'popitem', 'clear',
+                 '__setitem__', '__delitem__')
+
+
+def _writes_into(ctx, f, name, depth=2):
+    """Statements of f that store into the mapping held by local / parameter
+    ``name`` - directly, or by handing it to a project function that writes
+    into the parameter it arrives in."""
+    out = []
+    for n in own_nodes(f.node):
+        if isinstance(n, ast.Subscript) and isinstance(
+                n.ctx, (ast.Store, ast.Del)) and isinstance(
+                    n.value, ast.Name) and n.value.id == name:
+            out.append(n)
+        elif isinstance(n, ast.Call) and isinstance(
+                n.func, ast.Attribute) and n.func.attr in _DICT_WRITERS \
+                and isinstance(n.func.value, ast.Name) and \
+                n.func.value.id == name:
+            out.append(n)
+    if depth > 0:
+        for s in ctx.cg.calls_in(f):
+            for g in s.callees:
+                for pn in g.params:
+                    a = C.arg_for_param(s.node, g, pn)
+                    if isinstance(a, ast.Name) and a.id == name and \
+                            _writes_into(ctx, g, pn, depth - 1):
+                        out.append(s.node)
+    return out
+
+
+def r1113(ctx, R):
+    """A field the request leaves out stays as it is: where a handler tells
+    "given" from "omitted" by asking whether the key is in the parsed body,
+    the body is what the client sent - nothing has written keys into it
+    (a default filled in for an omitted parent reads as "parent: null": a
+    rename moves the provider out of its tree)."""
+    n = 0
+    for f in ctx.prog.funcs:
+        if not f.module.name.startswith('placement.handlers.'):
+            continue
+        tests = [t for t in own_nodes(f.node) if isinstance(t, ast.Compare)
+                 and len(t.ops) == 1 and isinstance(
+                     t.ops[0], (ast.In, ast.NotIn))
+                 and isinstance(t.comparators[0], ast.Name)]
+        seen = set()
+        for t in tests:
+            d = t.comparators[0].id
+            v = C.inline_locals(f, t.comparators[0])
+            if d in seen or not (isinstance(v, ast.Call) and (
+                    ctx.prog.dotted(f.module, v.func, f) or '').endswith(
+                        'util.extract_json')):
+                continue
+            seen.add(d)
+            n += 1
+            w = _writes_into(ctx, f, d)
+            R.ob('R11.13', '%s:body-as-sent:%s' % (f.qname, d), not w,
+                 'the parsed body whose keys decide what the request '
+                 'changes is not written to', [
+                     'line %d: %s' % (x.lineno, src(x)[:50])
+                     for x in w][:3] or 'never written', func=f, node=t)
+    R.count('R11.13', n, 1)
+
+
+_run_c11c = run
+
+
+def run(ctx, R):
+    _run_c11c(ctx, R)
+    r1113(ctx, R)
